@@ -27,21 +27,21 @@ import (
 )
 
 type c04Env struct {
-	t       *testing.T
-	s       *Store
-	ops     []string
-	impl    []string
-	hist    []string
-	nextID  int
-	stale   bool // a staged WAL existed when the base database changed
-	rep     *vfReport
-	dead    bool
-	lvl     string // "" = current source; "@1" … an older model level (experiments)
-	pend    raftFSMSnapshot
-	pendIdx uint64
-	pendTerm uint64
+	t                 *testing.T
+	s                 *Store
+	ops               []string
+	impl              []string
+	hist              []string
+	nextID            int
+	stale             bool // a staged WAL existed when the base database changed
+	rep               *vfReport
+	dead              bool
+	lvl               string // "" = current source; "@1" … an older model level (experiments)
+	pend              raftFSMSnapshot
+	pendIdx           uint64
+	pendTerm          uint64
 	loadDuringPersist bool
-	pendSuperseded    bool // a snapshot was installed after the pending one was captured
+	pendSuperseded    bool   // a snapshot was installed after the pending one was captured
 	srcDB             *db.DB // a second connection to the database file, for parked read transactions
 	parked            []context.CancelFunc
 }
@@ -79,6 +79,45 @@ func (e *c04Env) closeReaders() {
 	if e.srcDB != nil {
 		e.srcDB.Close()
 		e.srcDB = nil
+	}
+}
+
+// Load-related failures (a node that lost or has not yet regained leadership on an overloaded
+// machine, an operation that timed out in a queue) are not findings: the case is abandoned and
+// counted; the run fails as "harness could not run" only if more than half the cases end so.
+type c04Abandon struct{ why string }
+
+func c04Transient(err error) bool {
+	if err == nil {
+		return false
+	}
+	m := strings.ToLower(err.Error())
+	for _, t := range []string{"not leader", "leadership lost", "timeout waiting for leader", "timed out enqueuing", "leadership transfer in progress", "timeout waiting for", "context deadline exceeded"} {
+		if strings.Contains(m, t) {
+			return true
+		}
+	}
+	return false
+}
+
+// must: nil = fine; a load-related error abandons the case; anything else is a broken harness
+func (e *c04Env) must(what string, err error) {
+	if err == nil {
+		return
+	}
+	if c04Transient(err) {
+		panic(c04Abandon{what + ": " + err.Error()})
+	}
+	e.t.Fatalf("%s: %v (history %v)", what, err, e.hist)
+}
+
+func (e *c04Env) exec(qs []string) {
+	rows, _, err := e.s.Execute(context.Background(), executeRequestFromStrings(qs, false, false))
+	e.must("execute", err)
+	for _, r := range rows {
+		if r.GetError() != "" {
+			e.t.Fatalf("execute: %s (history %v)", r.GetError(), e.hist)
+		}
 	}
 }
 
@@ -163,17 +202,25 @@ func (e *c04Env) state() string {
 
 // restartProc stops the node, forces a restore from the snapshot store, starts it again and
 // evaluates the property: it must open and hold exactly what it had applied.
-func (e *c04Env) restartProc() string {
+func (e *c04Env) restartProc() string { return e.restartWith(true, "") }
+
+// restartWith: force = remove the clean-snapshot marker first (restore from the snapshot store);
+// want != "" = the rows the node must hold afterwards (otherwise: what it held before).
+func (e *c04Env) restartWith(force bool, want string) string {
 	s := e.s
 	e.closeReaders()
 	before := e.fullContent()
 	if err := s.Close(true); err != nil {
 		e.t.Fatalf("close: %v", err)
 	}
-	if err := s.ForceSnapshotRestore(); err != nil {
-		e.t.Fatal(err)
+	if force {
+		if err := s.ForceSnapshotRestore(); err != nil {
+			e.t.Fatal(err)
+		}
+		e.hist = append(e.hist, "restart(forced restore)")
+	} else {
+		e.hist = append(e.hist, "restart")
 	}
-	e.hist = append(e.hist, "restart(forced restore)")
 	sig := ""
 	if e.stale {
 		sig = ":staged-wal-survived-base-change"
@@ -186,13 +233,20 @@ func (e *c04Env) restartProc() string {
 		return "corrupt"
 	}
 	if _, err := s.WaitForLeader(120 * time.Second); err != nil {
-		e.t.Fatalf("no leader after restart: %v (history %v)", err, e.hist)
+		panic(c04Abandon{"no leader after restart: " + err.Error()})
 	}
 	// wait until the FSM has applied the whole replayed log
-	if err := s.raft.Barrier(30 * time.Second).Error(); err != nil {
-		e.t.Fatalf("barrier after restart: %v", err)
+	if err := s.raft.Barrier(120 * time.Second).Error(); err != nil {
+		panic(c04Abandon{"barrier after restart: " + err.Error()})
 	}
 	after := e.fullContent()
+	if want != "" {
+		if got := e.content(); got != want {
+			e.rep.Fail("restart-after-interrupted-install-keeps-old-database", fmt.Sprintf("history %v: the newest snapshot holds rows %q, the restarted node holds %q (it had %q before the install began)", e.hist, want, got, before),
+				map[string]interface{}{"history": e.hist, "want": want, "got": got})
+		}
+		return "ok"
+	}
 	if after != before {
 		e.rep.Fail("restored-state-differs"+sig, fmt.Sprintf("history %v: applied rows %q, after restoring the newest snapshot and replaying the log %q", e.hist, before, after),
 			map[string]interface{}{"history": e.hist, "before": before, "after": after})
@@ -267,7 +321,7 @@ func (e *c04Env) do(op string, r *vfRng) {
 		if r.Chance(35) {
 			pad = strings.Repeat("P", 3000+r.Intn(9000)) // page-heavy
 		}
-		mustExecute(e.t, s, []string{fmt.Sprintf("INSERT INTO t(id, v) VALUES(%d, '%s')", e.nextID, pad)})
+		e.exec([]string{fmt.Sprintf("INSERT INTO t(id, v) VALUES(%d, '%s')", e.nextID, pad)})
 		e.emit(fmt.Sprintf("write %d", e.nextID), "ok")
 		e.hist = append(e.hist, "write")
 	case op == "bigwrite":
@@ -277,7 +331,7 @@ func (e *c04Env) do(op string, r *vfRng) {
 		for i := 0; i < 120; i++ {
 			qs = append(qs, fmt.Sprintf("INSERT INTO bulk(pad) VALUES('%s')", strings.Repeat("B", 1200+r.Intn(600))))
 		}
-		mustExecute(e.t, s, qs)
+		e.exec(qs)
 		e.emit(fmt.Sprintf("write %d", e.nextID), "ok")
 		e.hist = append(e.hist, "write(120 rows)")
 	case op == "park":
@@ -297,9 +351,8 @@ func (e *c04Env) do(op string, r *vfRng) {
 		e.hist = append(e.hist, "reader replaced by one at the new end of the WAL")
 	case op == "noop":
 		af, err := s.Noop("verif")
-		if err != nil || af.Error() != nil {
-			e.t.Fatalf("noop: %v", err)
-		}
+		e.must("noop", err)
+		e.must("noop", af.Error())
 		e.emit("noop", "ok")
 		e.hist = append(e.hist, "noop")
 	case op == "snapbegin":
@@ -337,6 +390,15 @@ func (e *c04Env) do(op string, r *vfRng) {
 		}
 		idx, term := s.raft.AppliedIndex(), s.raft.CurrentTerm()
 		stop, done := make(chan struct{}), make(chan struct{})
+		// only the WAL file this call creates is a target: files staged earlier are left alone (the
+		// full-snapshot path removes the whole staging directory; touching it there would make
+		// that removal fail, which is not the failure meant here)
+		old := map[string]bool{}
+		if ms, _ := filepath.Glob(filepath.Join(s.walStagingDir, "*.wal")); len(ms) > 0 {
+			for _, m := range ms {
+				old[m] = true
+			}
+		}
 		go func() {
 			defer close(done)
 			for {
@@ -347,6 +409,9 @@ func (e *c04Env) do(op string, r *vfRng) {
 				}
 				if ms, _ := filepath.Glob(filepath.Join(s.walStagingDir, "*.wal")); len(ms) > 0 {
 					for _, m := range ms {
+						if old[m] {
+							continue
+						}
 						if _, err := os.Stat(m + ".crc32"); err != nil {
 							os.Mkdir(m+".crc32", 0o755)
 						}
@@ -361,6 +426,8 @@ func (e *c04Env) do(op string, r *vfRng) {
 		case err == ErrNoWALToSnapshot:
 			e.emit("snapbeginfail"+e.lvl, "nowal")
 			e.hist = append(e.hist, "FSM.Snapshot():nowal")
+		case err != nil && !strings.Contains(err.Error(), "CRC32 sum file"):
+			e.t.Fatalf("snapbeginfail: FSM.Snapshot() failed with something other than the provoked staging failure: %v (history %v)", err, e.hist)
 		case err != nil:
 			e.emit("snapbeginfail"+e.lvl, "err-stage")
 			e.hist = append(e.hist, "FSM.Snapshot() fails staging the checkpointed WAL: "+err.Error())
@@ -467,6 +534,9 @@ func (e *c04Env) do(op string, r *vfRng) {
 		switch outcome {
 		case "ok":
 			err := s.Snapshot(0)
+			if c04Transient(err) {
+				panic(c04Abandon{"snapshot: " + err.Error()})
+			}
 			switch {
 			case err == nil:
 				res = e.snapKind(fb, ib)
@@ -502,9 +572,7 @@ func (e *c04Env) do(op string, r *vfRng) {
 			e.loadDuringPersist = true
 		}
 		p := e.mkLoadFile(e.nextID, false)
-		if err := s.Load(context.Background(), loadRequestFromFile(p)); err != nil {
-			e.t.Fatalf("load: %v", err)
-		}
+		e.must("load", s.Load(context.Background(), loadRequestFromFile(p)))
 		e.emit(fmt.Sprintf("load %d", e.nextID), "ok")
 		e.hist = append(e.hist, "load")
 	case op == "boot":
@@ -516,9 +584,7 @@ func (e *c04Env) do(op string, r *vfRng) {
 		}
 		_, err = s.ReadFrom(f)
 		f.Close()
-		if err != nil {
-			e.t.Fatalf("boot: %v", err)
-		}
+		e.must("boot", err)
 		e.emit(fmt.Sprintf("boot%s %d", e.lvl, e.nextID), "ok")
 		e.hist = append(e.hist, "boot")
 	case op == "install":
@@ -528,9 +594,8 @@ func (e *c04Env) do(op string, r *vfRng) {
 			// raft does not serialize installSnapshot with a local snapshot in flight. The leader's
 			// snapshot is ahead of anything captured locally: take one more log index first.
 			af, err := s.Noop("verif")
-			if err != nil || af.Error() != nil {
-				e.t.Fatalf("noop before install: %v", err)
-			}
+			e.must("noop before install", err)
+			e.must("noop before install", af.Error())
 			e.emit("noop", "ok")
 			e.pendSuperseded = true
 			e.hist = append(e.hist, "(local snapshot in flight)")
@@ -570,6 +635,47 @@ func (e *c04Env) do(op string, r *vfRng) {
 		}
 		e.emit(fmt.Sprintf("install%s %d", e.lvl, e.nextID), "ok")
 		e.hist = append(e.hist, "install")
+	case op == "installcrash":
+		// raft's installSnapshot on a follower, interrupted: the leader's snapshot is streamed into a
+		// sink of the local snapshot store and the sink is closed; the process dies before FSM.Restore
+		// has replaced the database. The restart is an ordinary one (the clean-snapshot marker is left
+		// as it is): the node must come up with the database of its newest snapshot.
+		if e.pend != nil {
+			e.pend.Release()
+			e.pend, e.pendSuperseded = nil, false
+		}
+		af, nerr := s.Noop("verif")
+		e.must("noop before install", nerr)
+		e.must("noop before install", af.Error())
+		e.emit("noop", "ok")
+		e.nextID++
+		e.noteBaseChange()
+		p := e.mkLoadFile(e.nextID, true)
+		cf := s.raft.GetConfiguration()
+		if err := cf.Error(); err != nil {
+			e.t.Fatal(err)
+		}
+		sink, err := s.snapshotStore.Create(1, s.raft.AppliedIndex(), s.raft.CurrentTerm(), cf.Configuration(), 1, nil)
+		if err != nil {
+			e.t.Fatalf("installcrash: create sink: %v", err)
+		}
+		str, err := snapshot.NewSnapshotStreamer(p)
+		if err != nil {
+			e.t.Fatal(err)
+		}
+		if err := str.Open(); err != nil {
+			e.t.Fatal(err)
+		}
+		if _, err := io.Copy(sink, str); err != nil {
+			e.t.Fatalf("installcrash: copy: %v", err)
+		}
+		str.Close()
+		if err := sink.Close(); err != nil {
+			e.t.Fatalf("installcrash: close: %v", err)
+		}
+		e.hist = append(e.hist, "install: snapshot stored, process dies before FSM.Restore")
+		r := e.restartWith(false, strconv.Itoa(e.nextID))
+		e.emit(fmt.Sprintf("installcrash%s %d", e.lvl, e.nextID), r)
 	case op == "reap":
 		if _, _, err := s.snapshotStore.Reap(); err != nil {
 			e.emit("reap", "err "+err.Error())
@@ -614,31 +720,61 @@ func c04NewEnv(t *testing.T, rep *vfReport) *c04Env {
 	return e
 }
 
+// runOps performs the operations of one case (skipping those that do not apply in the state reached)
+func (e *c04Env) runOps(ops []string, r *vfRng) {
+	for _, op := range ops {
+		if e.dead {
+			break
+		}
+		if e.pend != nil && (op == "boot" || op == "snapbegin" || strings.HasPrefix(op, "snap ")) {
+			continue // raft takes one snapshot at a time (a boot goes through the same goroutine)
+		}
+		if e.pend == nil && strings.HasPrefix(op, "snapend ") {
+			continue
+		}
+		if e.pend != nil && op == "snapbeginfail" {
+			continue
+		}
+		if e.pendSuperseded && op == "snapend failafter" {
+			op = "snapend ok" // the staging directory is already gone: Close fails before its final rename
+		}
+		e.do(op, r)
+		e.observe()
+	}
+}
+
 func TestVerifC04(t *testing.T) {
-	rep := vfNewReport("C04", "histories on a real single-node Store (8-16 steps [thorough 12-40]): write batches (35% page-heavy), snapshot via raft + real sink, FSM.Snapshot() and Persist+Close driven separately with applies or a snapshot install in between, snapshot with Persist not invoked / failing before the staged WAL is consumed / Close failing at its final rename (the sink's process exit is caught and followed by a restart), FSM.Snapshot() failing to stage the checkpointed WAL, load (raft LOAD entry), boot, follower-style install (real sink + FSM.Restore), reap, restart with forced restore; first 15 directed histories (every confirmed defect shape, every interleaving around a snapshot in flight, snapshots whose WAL truncation is blocked twice by parked read transactions), then generated ones biased towards 'staged WAL present when the base database changes'; after every step rows of the table, number of staged WALs, number of snapshots and DueNext compared with the model; at every restart the node must open and hold the rows it had applied; non-trivial: at least one snapshot is not installed and one restart happens; distinct by op text")
+	rep := vfNewReport("C04", "histories on a real single-node Store (8-16 steps [thorough 12-40]): write batches (35% page-heavy), snapshot via raft + real sink, FSM.Snapshot() and Persist+Close driven separately with applies or a snapshot install in between, snapshot with Persist not invoked / failing before the staged WAL is consumed / Close failing at its final rename (the sink's process exit is caught and followed by a restart), FSM.Snapshot() failing to stage the checkpointed WAL, load (raft LOAD entry), boot, follower-style install (real sink + FSM.Restore), reap, restart with forced restore; first 17 directed histories (every confirmed defect shape, every interleaving around a snapshot in flight, snapshots whose WAL truncation is blocked twice by parked read transactions), then generated ones biased towards 'staged WAL present when the base database changes'; after every step rows of the table, number of staged WALs, number of snapshots and DueNext compared with the model; at every restart the node must open and hold the rows it had applied; non-trivial: at least one snapshot is not installed and one restart happens; distinct by op text")
 	defer rep.Write()
 	r := vfNewRng(4)
 	var allOps, allImpl [][]string
+	nCases, nAbandoned := 0, 0
 	run := func(ops []string) {
+		nCases++
 		e := c04NewEnv(t, rep)
-		for _, op := range ops {
-			if e.dead {
-				break
+		abandoned := false
+		func() {
+			defer func() {
+				if x := recover(); x != nil {
+					a, ok := x.(c04Abandon)
+					if !ok {
+						panic(x)
+					}
+					abandoned = true
+					nAbandoned++
+					rep.Count("abandoned-under-load")
+					t.Logf("C04: case abandoned (%s) after %v", a.why, e.hist)
+				}
+			}()
+			e.runOps(ops, r)
+		}()
+		if abandoned {
+			e.closeReaders()
+			if e.pend != nil {
+				e.pend.Release()
 			}
-			if e.pend != nil && (op == "boot" || op == "snapbegin" || strings.HasPrefix(op, "snap ")) {
-				continue // raft takes one snapshot at a time (a boot goes through the same goroutine)
-			}
-			if e.pend == nil && strings.HasPrefix(op, "snapend ") {
-				continue
-			}
-			if e.pend != nil && op == "snapbeginfail" {
-				continue
-			}
-			if e.pendSuperseded && op == "snapend failafter" {
-				op = "snapend ok" // the staging directory is already gone: Close fails before its final rename
-			}
-			e.do(op, r)
-			e.observe()
+			e.s.Close(true)
+			return
 		}
 		if e.pend != nil {
 			e.pend.Release()
@@ -703,6 +839,10 @@ func TestVerifC04(t *testing.T) {
 		// snapshots whose WAL truncation is blocked by parked readers, twice in a row with the WAL appended
 		// to in between (the content of the segments is C06's; end to end it must still rebuild)
 		{"write", "snap ok", "bigwrite", "park", "snap ok", "bigwrite", "repark", "snap ok", "bigwrite", "unpark", "snap ok", "restart"},
+		// an install interrupted between "snapshot stored" and FSM.Restore, ordinary restart (the
+		// clean-snapshot marker still describes the old database file), then more work and a forced restore
+		{"write", "snap ok", "write", "installcrash", "write", "snap ok", "restart"},
+		{"write", "snap ok", "bigwrite", "snap ok", "installcrash", "bigwrite", "snap ok", "write", "snap ok", "restart"},
 		// a chain of incrementals, reap, more, restore
 		{"write", "snap ok", "bigwrite", "snap ok", "write", "snap ok", "reap", "write", "snap ok", "restart"},
 	} {
@@ -745,7 +885,11 @@ func TestVerifC04(t *testing.T) {
 			case c < 16:
 				ops = append(ops, "boot")
 			case c < 17:
-				ops = append(ops, "install")
+				if r.Intn(3) == 0 {
+					ops = append(ops, "installcrash")
+				} else {
+					ops = append(ops, "install")
+				}
 			case c < 18:
 				ops = append(ops, "reap")
 			default:
@@ -757,6 +901,9 @@ func TestVerifC04(t *testing.T) {
 			rep.Count("op:" + strings.SplitN(o, " ", 2)[0])
 		}
 		run(ops)
+	}
+	if nAbandoned*2 > nCases {
+		t.Fatalf("C04: harness could not run: %d of %d cases abandoned because of load-related failures", nAbandoned, nCases)
 	}
 	rep.vfCompareSegments("snapsm", allOps, allImpl)
 }
